@@ -3,6 +3,8 @@
 -/
 import BezierVerif.Basic
 import BezierVerif.Model.Polygon
+import BezierVerif.Model.Sweep
+import BezierVerif.Gen.Box
 
 namespace ModelDriver
 
@@ -11,12 +13,42 @@ def edgesOf : List ℚ → Option (List (Polygon.Edge ℚ))
   | a :: b :: c :: d :: rest => (edgesOf rest).map (fun l => ⟨a, b, c, d⟩ :: l)
   | _ => none
 
+/-- boxes: 4 rationals per shape -/
+def boxesOf : List ℚ → Option (List (ℚ × ℚ × ℚ × ℚ))
+  | [] => some []
+  | a :: b :: c :: d :: rest => (boxesOf rest).map (fun l => (a, b, c, d) :: l)
+  | _ => none
+
+def showObj (o : Sweep.Obj) : String := (if o.side then "b" else "a") ++ toString o.idx
+
+/-- `sweep nA l b r t ...` (first nA boxes = seta): instructions, stable sort by key, event loop.
+    The overlap test is the generated `BoundingBox.overlaps`. -/
+def sweep (nA : Nat) (bs : List (ℚ × ℚ × ℚ × ℚ)) : String :=
+  let A := bs.take nA
+  let B := bs.drop nA
+  let box (o : Sweep.Obj) : ℚ × ℚ × ℚ × ℚ := (if o.side then B else A).getD o.idx (0, 0, 0, 0)
+  let key : Sweep.Ev → ℚ
+    | .add o => (box o).1
+    | .rem o => (box o).2.2.1
+  let evs := (Sweep.instructions A.length B.length).mergeSort (fun a b => key a ≤ key b)
+  let ov (o o2 : Sweep.Obj) : Bool :=
+    Gen.bbox_overlaps (box o).1 (box o).2.1 (box o).2.2.1 (box o).2.2.2 (box o2).1 (box o2).2.1 (box o2).2.2.1 (box o2).2.2.2
+  let st := Sweep.run ov evs
+  "ok " ++ " ".intercalate (st.out.map fun p => showObj p.1 ++ ":" ++ showObj p.2)
+
 def handle (name : String) (args : List String) : String :=
   match name with
   | "polygon.signedArea" =>
     match args.mapM parseRat >>= edgesOf with
     | some es => "ok " ++ showRat (Polygon.signedArea es) ++ " " ++ showRat (Polygon.area es) ++ " " ++ showRat (Polygon.direction es)
     | none => "bad-args"
+  | "sweep" =>
+    match args with
+    | n :: rest =>
+      match n.toNat?, rest.mapM parseRat >>= boxesOf with
+      | some nA, some bs => sweep nA bs
+      | _, _ => "bad-args"
+    | _ => "bad-args"
   | _ => "nomodel"
 
 end ModelDriver
